@@ -121,10 +121,12 @@ theorem derivativeGeneric_congr (o : Obj K) {tol : K} (htol : 0 < tol) {ps qs : 
 
 omit [IsStrictOrderedRing K] [FloorRing K] in
 /-- `_validate_domain` succeeds when every snapped parameter of every non-periodic direction is
-    in the domain. -/
+    in the domain and no non-periodic direction has an empty parameter list (`min()` of an empty
+    sequence raises `ValueError`). -/
 theorem validateDomain_ok_of_inDomain (o : Obj K) (tol : K) (qs : List (List K))
     (hdom : ∀ bp ∈ List.zip o.bases.toList qs, bp.1.periodic < 0 →
-        ∀ τ ∈ bp.2, bp.1.start ≤ snap bp.1 tol τ ∧ snap bp.1 tol τ ≤ bp.1.stop) :
+        ∀ τ ∈ bp.2, bp.1.start ≤ snap bp.1 tol τ ∧ snap bp.1 tol τ ≤ bp.1.stop)
+    (hne : ∀ bp ∈ List.zip o.bases.toList qs, bp.1.periodic < 0 → bp.2 ≠ []) :
     o.validateDomain tol qs =
       .ok ((List.zip o.bases.toList qs).map (fun bp => bp.2.map (snap bp.1 tol))) := by
   unfold Obj.validateDomain
@@ -135,7 +137,12 @@ theorem validateDomain_ok_of_inDomain (o : Obj K) (tol : K) (qs : List (List K))
     obtain ⟨x, hx, hbad⟩ := List.any_eq_true.1 hany
     obtain ⟨bp, hbp, rfl⟩ := List.mem_map.1 hx
     have hbad' := of_decide_eq_true hbad
-    obtain ⟨t, ht, hout⟩ := List.any_eq_true.1 hbad'.2
+    rcases hbad'.2 with hemp | hany'
+    · have hnil : bp.2 = [] := by
+        have := List.isEmpty_iff.1 hemp
+        simpa using this
+      exact hne bp hbp hbad'.1 hnil
+    obtain ⟨t, ht, hout⟩ := List.any_eq_true.1 hany'
     obtain ⟨τ, hτ, rfl⟩ := List.mem_map.1 ht
     have := hdom bp hbp hbad'.1 τ hτ
     rcases of_decide_eq_true hout with h1 | h1
@@ -150,11 +157,12 @@ theorem evaluate_fuzz_ok (o : Obj K) {tol : K} (htol : 0 < tol) {ps qs : List (L
     (h : NearAll tol o.bases.toList ps qs)
     (hdom : ∀ bp ∈ List.zip o.bases.toList qs, bp.1.periodic < 0 →
         ∀ τ ∈ bp.2, bp.1.start ≤ snap bp.1 tol τ ∧ snap bp.1 tol τ ≤ bp.1.stop)
+    (hne : ∀ bp ∈ List.zip o.bases.toList qs, bp.1.periodic < 0 → bp.2 ≠ [])
     (tensor : Bool) (hlen : tensor = true ∨ (qs.map List.length).eraseDups.length = 1) :
     ∃ r, o.evaluate tol ps tensor = .ok r ∧ o.evaluate tol qs tensor = .ok r := by
   rw [evaluate_congr o htol h tensor]
   unfold Obj.evaluate
-  rw [validateDomain_ok_of_inDomain o tol qs hdom]
+  rw [validateDomain_ok_of_inDomain o tol qs hdom hne]
   have hc : ¬ ((!tensor) = true ∧ (qs.map List.length).eraseDups.length ≠ 1) := by
     rintro ⟨h1, h2⟩
     rcases hlen with h3 | h3
@@ -169,6 +177,7 @@ theorem derivativeGeneric_fuzz_ok (o : Obj K) {tol : K} (htol : 0 < tol) {ps qs 
     (h : NearAll tol o.bases.toList ps qs)
     (hdom : ∀ bp ∈ List.zip o.bases.toList qs, bp.1.periodic < 0 →
         ∀ τ ∈ bp.2, bp.1.start ≤ snap bp.1 tol τ ∧ snap bp.1 tol τ ≤ bp.1.stop)
+    (hne : ∀ bp ∈ List.zip o.bases.toList qs, bp.1.periodic < 0 → bp.2 ≠ [])
     (derivs : List ℕ) (above : List Bool) (tensor : Bool)
     (hlen : tensor = true ∨ (qs.map List.length).eraseDups.length = 1)
     (hrat : o.rational = false ∨ derivs.sum ≤ 1) :
@@ -176,7 +185,7 @@ theorem derivativeGeneric_fuzz_ok (o : Obj K) {tol : K} (htol : 0 < tol) {ps qs 
       o.derivativeGeneric tol qs derivs above tensor = .ok r := by
   rw [derivativeGeneric_congr o htol h derivs above tensor]
   unfold Obj.derivativeGeneric
-  rw [validateDomain_ok_of_inDomain o tol qs hdom]
+  rw [validateDomain_ok_of_inDomain o tol qs hdom hne]
   have hc : ¬ ((!tensor) = true ∧ (qs.map List.length).eraseDups.length ≠ 1) := by
     rintro ⟨h1, h2⟩
     rcases hlen with h3 | h3
@@ -221,6 +230,11 @@ theorem curve_fuzz_at_end (o : Obj K) (b : Basis K) (hb : o.bases = #[b]) {tol :
     refine ⟨?_, le_refl _⟩
     show b.kn (b.order - 1) ≤ _
     exact hs _ _ (by unfold Basis.size at *; omega) hidx
+  · intro bp hbp _
+    rw [hb] at hbp
+    simp at hbp
+    subst hbp
+    simp
   · exact Or.inl rfl
 
 end obj
